@@ -1,4 +1,6 @@
 import MJ.Model.Meta
+import MJ.Model.MetaArms
+import MJ.Model.MetaSet
 /-! Line driver for C18.
 
 stdin: one template per line, the real AST as prefix tokens (see `harness/src/bin/c18.rs`).
@@ -13,7 +15,13 @@ stdout, per line:  `und=<names>\tnested=<dotted names>\tmacros=<name:flag:closur
                 statement, where no frame binds anything), or `SKIP` when the template uses
                 too many executions.  The look-ups of other templates (included, imported,
                 extended) are not part of `may`.  Re-entries of recursive loops are not enumerated: the frames of a
-                re-entry bind at least what the frames of an iteration bind.
+                re-entry bind at least what the frames of an iteration bind.  Macro calls made
+                elsewhere (`readsM`) add nothing: a call asks the context for nothing but what
+                the blocks it renders ask for.
+
+`drive_c18 arms` prints the model's arm tables (`MJ/Model/MetaArms.lean`) and the run-time
+tables of `MJ/Model/MetaSet.lean`, one row per line `table<TAB>variant<TAB>cfg<TAB>op¦op¦…`, so
+that `lib/props/c18.py` can name the arm of `meta.rs` that differs from the model.
 -/
 open MJ.Meta
 
@@ -298,7 +306,20 @@ partial def loop (h : IO.FS.Stream) (out : IO.FS.Stream) : IO Unit := do
   out.putStrLn (handle (line.dropEndWhile (· == '\n')).toString)
   loop h out
 
-def main : IO Unit := do
+def printRows (out : IO.FS.Stream) (table : String) (rows : List Row) : IO Unit := do
+  for (v, cfg, ops) in renderRows rows do
+    out.putStrLn s!"{table}\t{v}\t{cfg}\t{"¦".intercalate ops}"
+
+def main (args : List String) : IO Unit := do
   let stdin ← IO.getStdin
   let stdout ← IO.getStdout
-  loop stdin stdout
+  if args == ["arms"] then
+    printRows stdout "C18_TRACK_WALK_ARMS" modelWalkArms
+    printRows stdout "C18_VISIT_EXPR_ARMS" modelExprArms
+    printRows stdout "C18_TRACK_ASSIGN_ARMS" modelAssignArms
+    printRows stdout "C18_TRACKER_HELPERS" modelHelpers
+    stdout.putStrLn s!"C18_LOAD_ORDER\t\t\t{"¦".intercalate loadOrder}"
+    stdout.putStrLn s!"C18_MACRO_CALL_FRAMES\t\t\t{"¦".intercalate macroCallFrames}"
+    stdout.putStrLn s!"C18_MACRO_CODEGEN\t\t\t{"¦".intercalate macroCodegen}"
+  else
+    loop stdin stdout
